@@ -102,6 +102,17 @@ theorem pack_eq_add (base delta : Nat) (h : base < 2 ^ 51) :
     base ||| (delta <<< 51) = delta * 2 ^ 51 + base := by
   rw [Nat.or_comm, ← Nat.shiftLeft_add_eq_or_of_lt h, Nat.shiftLeft_eq]
 
+theorem satRangeStore_ok (r : Nat × Nat) (h : satRangeGuard r) :
+    ∃ bs, satRangeStore r = .ok bs ∧ bs.length = 11 ∧ satRangeLoad bs = r := by
+  obtain ⟨h1, h2, h3⟩ := h
+  refine ⟨leBytes 11 (r.1 ||| ((r.2 - r.1) <<< 51)), ?_, by simp, ?_⟩
+  · unfold satRangeStore; simp [Nat.not_lt.mpr h2]
+  · rw [satRangeLoad_leBytes, pack_eq_add _ _ h1]
+    have c : (2 : Nat) ^ 51 = 2251799813685248 := by decide
+    have d : (2 : Nat) ^ 37 = 137438953472 := by decide
+    rw [c, d] at *
+    ext <;> simp <;> omega
+
 /-! ### i32 two's complement -/
 
 theorem i32OfBits_i32Bits (v : Int) (h1 : -2147483648 ≤ v) (h2 : v < 2147483648) :
@@ -113,5 +124,117 @@ theorem i32Bits_lt (v : Int) : i32Bits v < 256 ^ 4 := by
   unfold i32Bits
   have : (256 : Nat) ^ 4 = 4294967296 := by decide
   omega
+
+/-! ### round trips (proof bodies of the C35 entry theorems) -/
+
+theorem header_roundtrip (h : Header) (wf : h.wf) :
+    (headerStore h).length = 80 ∧ headerLoad (headerStore h) = h := by
+  obtain ⟨v1, v2, hp, hm, ht, hb, hn⟩ := wf
+  have p4 : (256 : Nat) ^ 4 = 2 ^ 32 := by decide
+  constructor
+  · simp [headerStore, hp, hm]
+  · cases h with
+    | mk version prev merkle time bits nonce =>
+      simp only at *
+      have hv : (leBytes 4 (i32Bits version)).length = 4 := by simp
+      have s : headerStore ⟨version, prev, merkle, time, bits, nonce⟩ =
+          leBytes 4 (i32Bits version) ++ (prev ++ (merkle ++ (leBytes 4 time ++ (leBytes 4 bits ++ leBytes 4 nonce)))) := by
+        simp [headerStore]
+      unfold headerLoad
+      rw [s]
+      congr
+      · rw [take_append_len _ _ 4 hv, leVal_leBytes_of_lt _ _ (i32Bits_lt _)]
+        exact i32OfBits_i32Bits _ v1 v2
+      · rw [drop_append_len _ _ 4 hv, take_append_len _ _ 32 hp]
+      · rw [drop_append_add _ _ 4 32 hv, drop_append_len _ _ 32 hp, take_append_len _ _ 32 hm]
+      · rw [drop_append_add _ _ 4 64 hv, drop_append_add _ _ 32 32 hp, drop_append_len _ _ 32 hm,
+          take_append_len _ _ 4 (by simp), leVal_leBytes_of_lt _ _ (by omega)]
+      · rw [drop_append_add _ _ 4 68 hv, drop_append_add _ _ 32 36 hp, drop_append_add _ _ 32 4 hm,
+          drop_append_len _ _ 4 (by simp),
+          take_append_len _ _ 4 (by simp), leVal_leBytes_of_lt _ _ (by omega)]
+      · rw [drop_append_add _ _ 4 72 hv, drop_append_add _ _ 32 40 hp, drop_append_add _ _ 32 8 hm,
+          drop_append_add _ _ 4 4 (by simp), drop_append_len _ _ 4 (by simp),
+          List.take_of_length_le (by simp), leVal_leBytes_of_lt _ _ (by omega)]
+
+theorem outpoint_roundtrip (o : OutPoint) (wf : o.wf) :
+    (outPointStore o).length = 36 ∧ outPointLoad (outPointStore o) = o := by
+  obtain ⟨ht, hv⟩ := wf
+  have p4 : (256 : Nat) ^ 4 = 2 ^ 32 := by decide
+  cases o with
+  | mk txid vout =>
+    simp only at *
+    constructor
+    · simp [outPointStore, ht]
+    · unfold outPointLoad outPointStore
+      congr
+      · exact take_append_len _ _ 32 ht
+      · rw [drop_append_len _ _ 32 ht, List.take_of_length_le (by simp),
+          leVal_leBytes_of_lt _ _ (by omega)]
+
+theorem satpoint_roundtrip (s : SatPoint) (wf : s.wf) :
+    (satPointStore s).length = 44 ∧ satPointLoad (satPointStore s) = s := by
+  obtain ⟨ho, hoff⟩ := wf
+  have p8 : (256 : Nat) ^ 8 = 2 ^ 64 := by decide
+  obtain ⟨hl, hr⟩ := outpoint_roundtrip s.outpoint ho
+  cases s with
+  | mk outpoint offset =>
+    simp only at *
+    constructor
+    · simp [satPointStore, hl]
+    · unfold satPointLoad satPointStore
+      congr
+      · rw [take_append_len _ _ 36 hl]; exact hr
+      · rw [drop_append_len _ _ 36 hl, List.take_of_length_le (by simp),
+          leVal_leBytes_of_lt _ _ (by omega)]
+
+theorem txid_roundtrip (t : List UInt8) : txidLoad (txidStore t) = t := rfl
+
+theorem inscription_id_roundtrip (i : InscriptionId) (h : i.txid.length = 32) :
+    inscriptionIdLoad (inscriptionIdStore i) = i := by
+  cases i with
+  | mk txid index =>
+    simp only at h
+    unfold inscriptionIdLoad inscriptionIdStore
+    congr
+    simp only
+    rw [leBytes_leVal' 16 _ (by simp [h]), leBytes_leVal' 16 _ (by simp [h]), List.take_append_drop]
+
+theorem inscription_id_value_bounds (i : InscriptionId) (h : i.txid.length = 32) :
+    (inscriptionIdStore i).1 < 2 ^ 128 ∧ (inscriptionIdStore i).2.1 < 2 ^ 128 := by
+  have p : (256 : Nat) ^ 16 = 2 ^ 128 := by decide
+  unfold inscriptionIdStore
+  have a := leVal_lt (i.txid.take 16)
+  have b := leVal_lt (i.txid.drop 16)
+  have la : (i.txid.take 16).length = 16 := by simp [h]
+  have lb : (i.txid.drop 16).length = 16 := by simp [h]
+  rw [la] at a; rw [lb] at b
+  simp only; omega
+
+theorem rune_id_roundtrip (i : RuneId) : runeIdLoad (runeIdStore i) = i := rfl
+theorem rune_roundtrip (r : Nat) : runeLoad (runeStore r) = r := rfl
+
+theorem rune_entry_roundtrip (e : RuneEntry) (h : e.etching.length = 32) :
+    runeEntryLoad (runeEntryStore e) = e := by
+  cases e with
+  | mk block burned divisibility etching mints number premine rune spacers symbol terms timestamp turbo =>
+    simp only at h
+    unfold runeEntryLoad runeEntryStore
+    congr
+    · simp only
+      have ht : (etching.drop 16).take 16 = etching.drop 16 :=
+        List.take_of_length_le (by simp [h])
+      rw [ht, leBytes_leVal' 16 _ (by simp [h]), leBytes_leVal' 16 _ (by simp [h]),
+        List.take_append_drop]
+    · cases terms <;> simp [termsLoad_termsStore]
+
+theorem inscription_entry_roundtrip (e : InscriptionEntry) (h : e.id.txid.length = 32) :
+    inscriptionEntryLoad (inscriptionEntryStore e) = e := by
+  cases e with
+  | mk charms fee height hidden id inscriptionNumber parents sat sequenceNumber timestamp =>
+    simp only at h
+    unfold inscriptionEntryLoad inscriptionEntryStore
+    congr
+    · exact inscription_id_roundtrip id h
+    · cases sat <;> simp
 
 end Ord.Entry
